@@ -13,8 +13,8 @@ def run(ctx):
     ctx.suites_run.append(oracles.SUITE)
     n = 10 if not ctx.thorough else 60
     js = jobs.make_jobs(ctx.rng, optimizers.names(), ["cont-zero", "cont-zero", "cont-onesided", "cont-tiny", "cont-sym", "cont", "cont-huge", "disc", "binary", "mixed", "perm"], n,
-                        modes=("serial", "serial", "thread", "process") if not ctx.thorough else ("serial", "thread", "process"), max_cycles_choices=(1, 2, 3, 4))
-    ctx.rule("all exported optimizers × tasks with zero-touching, one-sided, tiny and huge bounds first (where 0/0 and overflow arise) plus integer-coded pairs × seeds × serial/thread/process; "
+                        modes=("serial", "serial", "thread", "process") if not ctx.thorough else ("serial", "thread", "process"), max_cycles_choices=(1, 2, 3, 4), multi=True)
+    ctx.rule("all exported optimizers × tasks with zero-touching, one-sided, tiny and huge bounds first (where 0/0 and overflow arise) plus integer-coded pairs (a third of them weighted multi-objective) × seeds × serial/thread/process; "
              "EVERY call of objective_function (also for discarded candidates, also in workers) is recorded and judged by the Lean membership predicate; a case = one run; non-trivial = ≥ 10 objective calls")
     results = pmap(trace.run_traced, js)
     for r in results:
